@@ -279,15 +279,15 @@ type held struct {
 	enc    []byte // private copy of Encode(msg) taken before anything was overwritten (nil: no encoder / encode failed)
 	snap   []byte // snapshot(msg) taken at the same time
 	fields []byteField
-	known  bool // already attributed to C33-K1 (one hit per message)
 }
 
 // pending is the message decoded by the previous probe of this case; it is
 // re-checked once the next message has been received into the buffer.
 var pending *held
 
-// isConsensusWrapperAlias is the predicate of known finding C33-K1:
-// network.ConsensusMessage.Decode stores the input slice itself (`cm.Data = in`).
+// isConsensusWrapperAlias recognises the defect recorded as fixed C33-K1:
+// network.ConsensusMessage.Decode stored the input slice itself (`cm.Data = in`).
+// It only labels the witness; the refutation is a plain violation.
 func isConsensusWrapperAlias(h *held) bool {
 	cm, ok := h.msg.(*network.ConsensusMessage)
 	if !ok || h.d.name != "consensus_message" || cap(cm.Data) == 0 {
@@ -307,12 +307,7 @@ func (h *held) report(c *vcommon.Case, what string, extra map[string]any) {
 	}
 	msg := fmt.Sprintf("%s: the decoded message shares memory with the receive buffer it was decoded from: %s", h.d.name, what)
 	if isConsensusWrapperAlias(h) {
-		c.Count("known_consensus_wrapper_alias_observations", 1)
-		if !h.known {
-			h.known = true
-			c.Known("C33-K1", msg, w)
-		}
-		return
+		w["regression_of"] = "C33-K1 (fixed): ConsensusMessage.Decode keeps the caller's slice"
 	}
 	c.Violation("aliases-input", msg, w)
 }
@@ -464,10 +459,9 @@ func hold(c *vcommon.Case, d *decoder, mode string, in []byte, msg any, enc []by
 	if len(fieldsInRx(h.fields)) > 0 {
 		c.Count("messages_pointing_into_receive_buffer:"+d.name, 1) // diagnostic; the behaviour below decides
 	}
-	if !h.poke(c) && !h.known {
+	if !h.poke(c) {
 		return
 	}
-	// (a message attributed to C33-K1 is still overwritten: both directions of the defect are observed)
 	overwrite()
 	if !h.recheck(c, "ff", true) {
 		return
